@@ -300,6 +300,9 @@ pub struct St {
     rm: RefModel,
     history: Vec<Action>,
     key: Vec<u8>,
+    /// the transition into this state disagreed with the reference model (already reported): the
+    /// pair (instance, reference) is meaningless from here on and is not extended
+    diverged: bool,
 }
 
 impl St {
@@ -307,12 +310,12 @@ impl St {
         // canonical form: the full message bytes (all maps in these instances have at most one entry,
         // so the encoding is deterministic) plus the reference model
         let key = inst.encode_to_vec();
-        St { inst, rm, history, key }
+        St { inst, rm, history, key, diverged: false }
     }
 }
 impl PartialEq for St {
     fn eq(&self, o: &Self) -> bool {
-        self.key == o.key && self.rm == o.rm
+        self.key == o.key && self.rm == o.rm && self.diverged == o.diverged
     }
 }
 impl Eq for St {}
@@ -320,6 +323,7 @@ impl Hash for St {
     fn hash<H: Hasher>(&self, h: &mut H) {
         self.key.hash(h);
         self.rm.hash(h);
+        self.diverged.hash(h);
     }
 }
 
@@ -348,7 +352,11 @@ impl Model for M {
         vec![St::new(self.init.clone(), RefModel::of(&rep), vec![])]
     }
 
-    fn actions(&self, _s: &St, out: &mut Vec<Action>) {
+    fn actions(&self, s: &St, out: &mut Vec<Action>) {
+        if s.diverged {
+            self.side.lock().unwrap().bump("paths_not_extended_after_reported_divergence", 1);
+            return;
+        }
         for id in self.ids.iter().chain(std::iter::once(&99)) {
             // the empty string is a legal reason and still marks the constraint as removed
             for reason in ["a", ""] {
@@ -356,6 +364,8 @@ impl Model for M {
                     out.push(Action::Relax { id: *id, reason: reason.to_string(), with_params });
                 }
             }
+            // a reason is recorded as given, including surrounding whitespace
+            out.push(Action::Relax { id: *id, reason: " b \t".to_string(), with_params: false });
             out.push(Action::Restore { id: *id });
         }
     }
@@ -369,10 +379,14 @@ impl Model for M {
             let mut side = self.side.lock().unwrap();
             side.transitions += 1;
         }
+        let mut diverged = false;
         for (sig, d) in transition(&mut inst, &mut rm, &a) {
+            diverged = true;
             self.report(&history, format!("transition/{sig}"), format!("step {}: {d}", history.len() - 1));
         }
-        Some(St::new(inst, rm, history))
+        let mut st = St::new(inst, rm, history);
+        st.diverged = diverged;
+        Some(st)
     }
 
     fn properties(&self) -> Vec<Property<Self>> {
@@ -455,8 +469,8 @@ pub fn run(ctx: &Ctx) -> Finish {
     });
     Finish {
         level: "model_checking",
-        rule: "explicit-state breadth-first search (stateright) from each initial instance over the actions relax(id, reason in {a, empty string}, params in {none,{k:v}}) and restore(id) for every constraint id and the unknown id 99; the instance message IS the state (dedup key = its bytes + reference model), so all histories of any length are covered; every transition is compared with a two-set reference model and every reachable state is checked: active+removed multiset of (id, function, equality, metadata) unchanged, ids partitioned, recorded reasons, and on all 27 grid states per-constraint values and feasible equal the initial instance's while feasible_relaxed follows the currently active constraints".into(),
-        bounds: json!({"constraint_sets": sets.len(), "constraints_per_instance": if ctx.tier == Tier::Thorough { "3, 4 or 5" } else { "3 or 4" }, "initial_instances": "0,1,2,all initially removed", "actions_per_state": "5 per id incl. unknown id", "histories": "all lengths (full reachable state space)"}),
+        rule: "explicit-state breadth-first search (stateright) from each initial instance over the actions relax(id, reason in {a, empty string}, params in {none,{k:v}}), relax(id, a reason with leading and trailing whitespace) and restore(id) for every constraint id and the unknown id 99; the instance message IS the state (dedup key = its bytes + reference model), so all histories of any length are covered; every transition is compared with a two-set reference model and every reachable state is checked: active+removed multiset of (id, function, equality, metadata) unchanged, ids partitioned, recorded reasons, and on all 27 grid states per-constraint values and feasible equal the initial instance's while feasible_relaxed follows the currently active constraints".into(),
+        bounds: json!({"constraint_sets": sets.len(), "constraints_per_instance": if ctx.tier == Tier::Thorough { "3, 4 or 5" } else { "3 or 4" }, "initial_instances": "0,1,2,all initially removed", "actions_per_state": "6 per id incl. unknown id", "histories": "all lengths (full reachable state space)"}),
         exhaustive: true,
     }
 }
